@@ -296,6 +296,14 @@ func GenProperty(w *Writer, prop string, t Tier, seed uint64) error {
 		return GenJsonFamily(w, r, t)
 	case "C17":
 		return GenHtmlFamily(w, r, t)
+	case "C19":
+		return GenUnmarshalFamily(w, r, t)
+	case "C20":
+		return GenCliFamily(w, r, t)
+	case "C14":
+		return GenCliConcFamily(w, r, t)
+	case "C13":
+		return GenHistoryFamily(w, r, t)
 	case "C18":
 		return runEvalPlans(w, r, t, []evalPlan{
 			{fam: "subq", doc: docDefault, gen: func(g *ExprGen, d *Doc, r *Rng) (Expr, int) {
